@@ -552,6 +552,18 @@ func firstDiffPK(exp, obs any) int {
 // Signature: op | observable | expected class | observed class | the calls made on the affected primary key
 // since the last save (and whether the key was in the saved table).
 func (d *drv) Signature(b *core.Behaviour, idx int, field string, exp, obs any) string {
+	if field == "panic" {
+		idx-- // the replayer reports the number of steps begun
+	}
+	if idx < 0 {
+		idx = 0
+	}
+	if idx >= len(b.Steps) {
+		idx = len(b.Steps) - 1
+	}
+	if field == "panic" {
+		return fmt.Sprintf("%s|panic", b.Steps[idx].Op())
+	}
 	s := b.Steps[idx]
 	if field == "ret" {
 		o := fmt.Sprint(obs)
